@@ -216,6 +216,9 @@ def Env.die (e : Env) (aid : Nat) : Env :=
       let e := e.setActor { a with alive := false, running := none, mailbox := [], stopReq := false }
       { e with log := e.log ++ held.map (fun j => Ev.lost aid j.id), sup := e.sup ++ [aid] }
 
+/-- every actor that is still alive is killed -/
+def Env.killAll (e : Env) : Env := (e.actors.map (·.aid)).foldl Env.die e
+
 /-- `actor.stop(None)`: the stop signal outranks queued messages; a busy actor exits after its
 current handler, an idle one as soon as its task runs. -/
 def Env.stop (e : Env) (aid : Nat) : Env :=
@@ -760,6 +763,9 @@ def W.tryFinishStop (w : W) : W :=
   if w.stopped && !w.exited && w.awaiting.all (fun aid => !(w.env.getActor aid).any (·.alive)) then
     let e := w.env.emit (.hook .stopped)
     let e := w.inbox.foldl Env.dropMsg e
+    -- an exiting supervisor terminates whatever children it still has (a worker the factory
+    -- had already dropped from its pool but that is still inside a handler)
+    let e := e.killAll
     { w with env := { e with sup := [] }, inbox := [], exited := true }
   else w
 
